@@ -26,6 +26,7 @@ type gen struct {
 	sessObj  map[int]int
 	tagPool  []string
 	sleptMs  int64 // planned sleep so far: bounds the number of timer firings a plan can cause
+	fewTags  bool  // graph profiles: three tags only (entries are retagged and re-added over and over)
 }
 
 func newGen(seed uint64, tier string) *gen {
